@@ -105,6 +105,8 @@ class Sym:
         return v if isinstance(v, Sym) else Sym(_z(v))
 
     def _bin(self, other, fn, swap=False):
+        if isinstance(other, SymQ):
+            return NotImplemented
         if _isnan(other):
             return float("nan")
         try:
@@ -144,6 +146,8 @@ class Sym:
         return Sym(z3.If(self.e >= 0, self.e, -self.e))
 
     def __truediv__(self, o):
+        if isinstance(o, SymQ):
+            return NotImplemented
         if _isnan(o):
             return float("nan")
         try:
@@ -228,6 +232,8 @@ class Sym:
 
     # -- comparisons --------------------------------------------------------------------
     def _cmp(self, o, fn):
+        if isinstance(o, SymQ):
+            return NotImplemented
         if _isnan(o):
             return False
         try:
@@ -279,6 +285,183 @@ class Sym:
     __str__ = __repr__
 
 
+class SymQ(Sym):
+    """exact fraction e/d of two z3 terms (rational-function arithmetic, used in 'rational' mode):
+    sums and products stay fractions, equalities and order comparisons are cross-multiplied, so
+    obligations are polynomial identities (modulo the definitions of square-root symbols)"""
+
+    __slots__ = ("d",)
+
+    def __init__(self, e, d):
+        self.e = e
+        self.d = d
+
+    @staticmethod
+    def _parts(o):
+        if isinstance(o, SymQ):
+            return o.e, o.d
+        if isinstance(o, Sym):
+            return o.e, None
+        return _z(o), None
+
+    @staticmethod
+    def _mk(n, d):
+        if d is None:
+            return Sym(n)
+        return SymQ(n, d)
+
+    def _addsub(self, o, sign, swap):
+        if _isnan(o):
+            return float("nan")
+        try:
+            b, bd = self._parts(o)
+        except TypeError:
+            return NotImplemented
+        a, ad = self.e, self.d
+        if z3.is_int(b):
+            b = z3.ToReal(b)
+        if swap:
+            a, ad, b, bd = b, bd, a, ad
+        if ad is not None and bd is not None and ad.get_id() == bd.get_id():
+            return SymQ(a + b if sign > 0 else a - b, ad)
+        an = a if bd is None else a * bd
+        bn = b if ad is None else b * ad
+        den = ad if bd is None else (bd if ad is None else ad * bd)
+        return self._mk(an + bn if sign > 0 else an - bn, den)
+
+    def __add__(self, o):
+        return self._addsub(o, 1, False)
+
+    def __radd__(self, o):
+        return self._addsub(o, 1, True)
+
+    def __sub__(self, o):
+        return self._addsub(o, -1, False)
+
+    def __rsub__(self, o):
+        return self._addsub(o, -1, True)
+
+    def __mul__(self, o):
+        if _isnan(o):
+            return float("nan")
+        try:
+            b, bd = self._parts(o)
+        except TypeError:
+            return NotImplemented
+        if z3.is_int(b):
+            b = z3.ToReal(b)
+        den = self.d if bd is None else self.d * bd
+        # cancel an identical factor: (a/d) * d
+        if bd is None and b.get_id() == self.d.get_id():
+            return Sym(self.e)
+        return SymQ(self.e * b, den)
+
+    __rmul__ = __mul__
+
+    def __neg__(self):
+        return SymQ(-self.e, self.d)
+
+    def __abs__(self):
+        raise TypeError("abs of a fraction is not supported")
+
+    def __truediv__(self, o):
+        try:
+            b, bd = self._parts(o)
+        except TypeError:
+            return NotImplemented
+        if z3.is_int(b):
+            b = z3.ToReal(b)
+        cv = _const_value(b) if bd is None else None
+        if cv is not None:
+            if cv == 0:
+                raise ZeroDivisionError("division by constant zero")
+            return SymQ(self.e * z3.RealVal(str(Fraction(1) / Fraction(cv))), self.d)
+        ctx().assume(b != 0, "divisor != 0 (definedness of a/b)")
+        num = self.e if bd is None else self.e * bd
+        return SymQ(num, self.d * b)
+
+    def __rtruediv__(self, o):
+        a = _z(o)
+        if z3.is_int(a):
+            a = z3.ToReal(a)
+        ctx().assume(self.e != 0, "divisor != 0 (definedness of a/b)")
+        return SymQ(a * self.d, self.e)
+
+    def __pow__(self, o):
+        if isinstance(o, float) and o == int(o):
+            o = int(o)
+        if isinstance(o, int) and not isinstance(o, bool) and o >= 0:
+            n, d = z3.RealVal(1), z3.RealVal(1)
+            for _ in range(o):
+                n, d = n * self.e, d * self.d
+            return SymQ(n, d)
+        raise TypeError("only non-negative integer powers of a fraction")
+
+    def sqrt(self):
+        c = ctx()
+        n, d = canon_poly(self.e), canon_poly(self.d)
+        key = ("sqrtq", n.get_id(), d.get_id())
+        if key in c.div_cache:
+            return Sym(c.div_cache[key])
+        c.assume(n * d >= 0, "sqrt argument >= 0")
+        r = c.fresh_real("sqrt")
+        c.define_lazy(z3.And(r >= 0, r * r * d == n), "sqrt(n/d) as fresh r with r>=0, r*r*d == n")
+        c.div_cache[key] = r
+        c.keep.extend([n, d])
+        return Sym(r)
+
+    def _cross(self, o):
+        """(lhs, rhs, den) with self ? o  <=>  lhs ? rhs after multiplying by den (den != 0)"""
+        b, bd = self._parts(o)
+        if z3.is_int(b):
+            b = z3.ToReal(b)
+        a, ad = self.e, self.d
+        lhs = a if bd is None else a * bd
+        rhs = b * ad
+        den = ad if bd is None else ad * bd
+        return lhs, rhs, den
+
+    def _rel(self, o, kind):
+        if _isnan(o):
+            return kind == "ne"
+        try:
+            lhs, rhs, den = self._cross(o)
+        except TypeError:
+            return NotImplemented
+        if kind == "eq":
+            return SymB(lhs == rhs)
+        if kind == "ne":
+            return SymB(lhs != rhs)
+        diff = (lhs - rhs) * den  # same sign as self - o (multiplied by den^2 > 0)
+        return SymB({"lt": diff < 0, "le": diff <= 0, "gt": diff > 0, "ge": diff >= 0}[kind])
+
+    def __eq__(self, o):
+        return self._rel(o, "eq")
+
+    def __ne__(self, o):
+        return self._rel(o, "ne")
+
+    def __lt__(self, o):
+        return self._rel(o, "lt")
+
+    def __le__(self, o):
+        return self._rel(o, "le")
+
+    def __gt__(self, o):
+        return self._rel(o, "gt")
+
+    def __ge__(self, o):
+        return self._rel(o, "ge")
+
+    def __hash__(self):
+        return 0
+
+    def __repr__(self):
+        return f"SymQ({z3.simplify(self.e)} / {z3.simplify(self.d)})"
+
+    __str__ = __repr__
+
+
 _UFS = {}
 
 
@@ -320,6 +503,9 @@ def _divide(n, d):
         n = z3.ToReal(n)
     if z3.is_int(d):
         d = z3.ToReal(d)
+    if c.rational:
+        c.assume(d != 0, "divisor != 0 (definedness of a/b)")
+        return SymQ(n, d)
     n = canon_poly(n)  # canonical form: syntactically different but equal polynomials share one quotient
     d = canon_poly(d)
     key = (n.get_id(), d.get_id())
@@ -598,6 +784,7 @@ class Context:
         self.lazy = []
         self.keep = []
         self.lazy_used = 0
+        self.rational = False  # True: quotients are kept as exact fractions num/den (SymQ) instead of fresh variables
         self.cross_rate = int(os.environ.get("VERIF_CROSS_RATE", "0"))  # 0 = off; k = every k-th solver-discharged obligation
         self.cross_n = 0
         self.cross_smt2 = []
@@ -830,7 +1017,7 @@ class Context:
             self.cut_prefixes.append([x[0] for x in self.trail])
             self.stats.cut_paths += 1
             raise CutDepth()
-        r1 = self._check(e)
+        r1 = self._q(e)
         if r1 == "unknown":
             self.stats.unknown += 1
             raise Inconclusive(f"feasibility unknown for {e}")
@@ -839,7 +1026,7 @@ class Context:
             self.trail.append([1, [], 1])
             self._record(z3.Not(e))
             return False
-        r2 = self._check(z3.Not(e))
+        r2 = self._q(z3.Not(e))
         if r2 == "unknown":
             self.stats.unknown += 1
             raise Inconclusive(f"feasibility unknown for Not({e})")
@@ -850,6 +1037,12 @@ class Context:
         self.trail.append([0, [1], 2])
         self._record(e)
         return True
+
+    def _q(self, cond):
+        """feasibility query: fresh non-incremental solver when nonlinear definitions are around"""
+        if self.lazy or self.rational:
+            return self._check_fresh(cond)
+        return self._check(cond)
 
     def define(self, cond, why):
         """add a side condition (definition / recorded assumption) to the path condition"""
@@ -884,7 +1077,7 @@ class Context:
         if i < len(self.trail):
             self._record(cond)
             return
-        if self.lazy:
+        if self.lazy or self.rational:
             r = self._check_fresh(cond)  # nonlinear context: non-incremental solver (full NRA pipeline)
         else:
             r = self._check(cond)
@@ -924,7 +1117,7 @@ class Context:
         if z3.is_true(s):
             self.stats.discharged += 1
             return True
-        if self.lazy:
+        if self.lazy or self.rational:
             # nonlinear definitions are pending: the incremental core is weak on NRA (and does
             # not always honour its timeout there); decide in fresh solvers only
             r = self._check_fresh(z3.Not(cond))
@@ -1036,6 +1229,8 @@ def explore(harness, *args, timeout_ms=20000, max_depth=None, prefix=None, max_p
 # helpers for array obligations
 # --------------------------------------------------------------------------------------------
 def to_z3(v):
+    if isinstance(v, SymQ):
+        raise TypeError("a fraction has no single z3 term: compare with Sym operators / prove_equal")
     if isinstance(v, Sym):
         return v.e
     if isinstance(v, SymB):
@@ -1058,6 +1253,19 @@ def neq_terms(A, B):
         if na or nb:
             if na != nb:
                 out.append(z3.BoolVal(True))
+            continue
+        if isinstance(a, SymQ) or isinstance(b, SymQ):
+            an, ad = SymQ._parts(a)
+            bn, bd = SymQ._parts(b)
+            an = z3.ToReal(an) if z3.is_int(an) else an
+            bn = z3.ToReal(bn) if z3.is_int(bn) else bn
+            if ad is not None and bd is not None and ad.get_id() == bd.get_id():
+                if an.get_id() != bn.get_id():
+                    out.append(an != bn)
+                continue
+            lhs = an if bd is None else an * bd
+            rhs = bn if ad is None else bn * ad
+            out.append(lhs != rhs)
             continue
         x, y = _coerce(to_z3(a), to_z3(b))
         if x.get_id() == y.get_id():
